@@ -138,6 +138,8 @@ type Runner struct {
 	TwinDir string
 	Twin    *hc.Proc
 	created int
+	// OnlyFailureLaws (stream c08): the frame / count laws of C05 are not evaluated, only the laws about failed statements
+	OnlyFailureLaws bool
 }
 
 func (r *Runner) Tab(name string) *Tab {
@@ -1600,7 +1602,7 @@ func (r *Runner) Exec(st *Stmt, cancelAt int64) *Outcome {
 				o.Law("statement_changed_other_table", rp)
 			}
 		}
-		if st.Check != nil && matchOK {
+		if st.Check != nil && matchOK && !r.OnlyFailureLaws {
 			for _, law := range st.Check(before, after, matched, out.Counts) {
 				rp := replay()
 				rp["counts_reported"] = countsStr(out.Counts)
